@@ -557,7 +557,7 @@ package participle
 //@ func (*Parser[G]).Lex [C15]
 //@   frame-tags C09
 //@   requires @assumed p.lex != nil
-//@   before call Definition.Lex#1: assert arg1 == filename && arg2 == r [C15]
+//@   before call Definition.Lex#1: assert (old(filename) != "" ==> arg1 == old(filename)) && arg2 == r [C15]
 //@   before call lexer.ConsumeAll#1: assert arg0 == lex [C15]
 
 // ---------------------------------------------------------------------------------------------
